@@ -308,6 +308,75 @@ example : (pendingUids (endMerge stU rU) 9).Perm (pendingUids stU 9) :=
     (by decide) (by decide) (by decide) (by decide) (by decide) (by decide)).2
 example : pendingUids stU 9 = [10, 20, 21] := by decide
 
+/-! ## the target opstamp -/
+
+/-- A merge of COMMITTED segments targets the last commit's opstamp (`mergeTarget true`). Every
+entry of the committed register has already consumed all delete operations up to that opstamp
+(`purge_deletes` at commit; stated as: nothing left to consume up to `c`), so the merge applies
+NO further delete — in particular no delete that was queued but not yet committed: the sources
+enter the merge exactly as published and the merged segment holds exactly their live documents.
+(The hypothesis fails only if a queued delete carries the commit's own opstamp — the first
+operation of a fresh writer, C02's finding `reopen-first-delete-published-by-merge`.) -/
+theorem C04_target_opstamp_committed (q : List DelOp) (srcs : List Entry) (c stamp newId : Nat)
+    (m : Entry) (hadv : ∀ e ∈ srcs, consumed q e.cursor c = [])
+    (hm : mergeEntries q srcs (mergeTarget true c stamp) newId = some m) :
+    (∀ e ∈ srcs, advance q e (mergeTarget true c stamp) = e) ∧
+    liveUids m = (srcs.map liveUids).flatten := by
+  have hadv' : ∀ e ∈ srcs, advance q e c = e := fun e he => advance_of_consumed_nil q e c (hadv e he)
+  have ht : mergeTarget true c stamp = c := rfl
+  rw [ht] at hm ⊢
+  refine ⟨hadv', ?_⟩
+  have hmap : (srcs.map fun e => advance q e c) = srcs := by
+    conv => rhs; rw [← List.map_id srcs]
+    exact List.map_congr_left (fun e he => hadv' e he)
+  unfold mergeEntries at hm
+  split at hm
+  · cases hm
+  · simp only [Option.some.injEq] at hm
+    rw [hmap] at hm
+    rw [← hm]
+    unfold liveUids
+    simp only [liveDocs_replicate_true, List.map_flatten, List.map_map]
+    rfl
+
+/-- two committed segments and a delete of key 1 that is queued but NOT committed -/
+def stP : State := pushDelete st0 ⟨5, 1⟩
+
+example : (∀ e ∈ [e1, e2], consumed stP.queue e.cursor 0 = []) := by decide
+example : mergeEntries stP.queue [e1, e2] (mergeTarget true 0 7) 3
+    = some { segId := 3, docs := [⟨10, [1]⟩, ⟨11, [2]⟩, ⟨12, [1]⟩], alive := [true, true, true], cursor := 0 } := by
+  decide
+
+/-- Counterexample for the other choice: if a merge of committed segments used the CURRENT stamp
+(the rule for uncommitted segments) as its target, the queued, uncommitted delete would be baked
+into the merged segment and published by `end_merge` — documents 10 and 12 disappear for
+searchers although nothing was committed, and a rollback does not bring them back. With the
+commit opstamp as target the published documents are unchanged. -/
+theorem C04_target_opstamp_counterexample :
+    let good : Running := ⟨[1, 2], mergeEntries stP.queue [e1, e2] (mergeTarget true 0 7) 3, 0⟩
+    let bad : Running := ⟨[1, 2], mergeEntries stP.queue [e1, e2] (mergeTarget false 0 7) 3, 0⟩
+    publishedUids stP = [10, 11, 12] ∧
+    publishedUids (endMerge stP good) = [10, 11, 12] ∧
+    publishedUids (endMerge stP bad) = [11] ∧
+    publishedUids (rollback (endMerge stP bad)) = [11] := by
+  decide
+
+/-- Counterexample for a stale cursor: uncommitted source `a` (doc 10, key 1) was flushed before
+delete(key 1), source `b` holds doc 20 with key 1 added AFTER the delete (an upsert). A policy
+merge `[a, b]` with target = current stamp applies the delete to `a` only; taking the merged
+entry's cursor after advancing, the commit publishes `[20]`. With the cursor of `a` taken BEFORE
+advancing, the commit replays the delete on the merged segment and doc 20 is lost. -/
+theorem C04_stale_cursor_counterexample :
+    let q : List DelOp := [⟨5, 1⟩]
+    let a : Entry := { segId := 1, docs := [⟨10, [1]⟩], alive := [true], cursor := 0 }
+    let b : Entry := { segId := 2, docs := [⟨20, [1]⟩], alive := [true], cursor := 1 }
+    let st : State := { queue := q, committed := [], uncommitted := [a, b], committedOpstamp := 0,
+                        published := [], epoch := 0 }
+    publishedUids (commit st 8) = [20] ∧
+    publishedUids (commit (endMerge st ⟨[1, 2], mergeEntries q [a, b] (mergeTarget false 0 7) 3, 0⟩) 8) = [20] ∧
+    publishedUids (commit (endMerge st ⟨[1, 2], mergeEntriesStale q [a, b] (mergeTarget false 0 7) 3, 0⟩) 8) = [] := by
+  decide
+
 /-- The reconciliation branch of `end_merge` is needed: a delete committed while the merge was
 running is reflected in the published merged segment with it, and lost without it. -/
 theorem C04_reconcile_needed :
